@@ -18,10 +18,15 @@ cd "$(dirname "$0")/src"
 set -e
 INC=$(/venv/bin/python -c "import sysconfig;print(sysconfig.get_paths()['include'])")
 EXT=$(/venv/bin/python -c "import sysconfig;print(sysconfig.get_config_var('EXT_SUFFIX'))")
-for p in mwlib/parser/templ/node mwlib/parser/templ/nodes mwlib/parser/templ/evaluate mwlib/parser/refine/_core; do
-  /venv/bin/cython -3 -X boundscheck=False -X wraparound=False $p.pyx -o /tmp/$$.c
+# as the project's own build does: the Makefile cythonizes templ/*.pyx with plain "cython -3"
+# (setup.py's directives only reach refine/_core.pyx, whose .c the Makefile does not pre-generate)
+for p in mwlib/parser/templ/node mwlib/parser/templ/nodes mwlib/parser/templ/evaluate; do
+  /venv/bin/cython -3 $p.pyx -o /tmp/$$.c
   gcc -O2 -shared -fPIC -w -I$INC /tmp/$$.c -o $p$EXT; rm -f /tmp/$$.c
 done
+p=mwlib/parser/refine/_core
+/venv/bin/cython -3 -X boundscheck=False -X wraparound=False $p.pyx -o /tmp/$$.c
+gcc -O2 -shared -fPIC -w -I$INC /tmp/$$.c -o $p$EXT; rm -f /tmp/$$.c
 g++ -O2 -shared -fPIC -w -I$INC mwlib/parser/token/_uscan.cc -o mwlib/parser/token/_uscan$EXT
 echo rebuilt
 EOS
